@@ -46,8 +46,10 @@ class ConvertInt(Contract):
         bw = kwargs.get('bitwidth', a[1])
         signed = kwargs.get('signed', a[2])
         if not isinstance(signed, bool):
-            from pyvc.engine import Unsupported
-            raise Unsupported('symbolic signed flag at a _convert_int call site')
+            from pyvc.engine import Unsupported, Sym
+            if not isinstance(signed, Sym):
+                raise Unsupported('signed flag %r at a _convert_int call site' % (signed,))
+            signed = bool(I.truth(signed))        # a computed flag: one path per value
         return NS(args=[v, bw, signed], val=term(v), bw=None if bw is None else term(bw), signed=signed)
 
     def pre(self, ns):
